@@ -292,5 +292,12 @@ pub fn gen(s: &mut Src) -> GenDoc {
     let layout = [Layout::Classic, Layout::XrefStream, Layout::Incremental][s.alt(2, &["classic-xref", "xref+object-streams", "incremental"])];
     g.objs.sort_by_key(|(n, _)| *n);
     let n_objs = g.next;
-    GenDoc { bytes: richdoc::write(&g.objs, layout, b""), n_pages, page_objs, n_objs }
+    // the source may be encrypted (written with the reference security handler; empty user password): the importer then reads
+    // strings and stream data through the decryption layer
+    let bytes = match s.alt(5, &["source-plain", "source-rc4-encrypted", "source-aes-encrypted"]) {
+        1 => crate::encdoc::encrypted_doc(&g.objs, 1, false, b"", b"owner", layout == Layout::XrefStream),
+        2 => crate::encdoc::encrypted_doc(&g.objs, 1, true, b"", b"owner", layout == Layout::XrefStream),
+        _ => richdoc::write(&g.objs, layout, b""),
+    };
+    GenDoc { bytes, n_pages, page_objs, n_objs }
 }
